@@ -102,6 +102,7 @@ type sched struct {
 	idx      map[int]int // IndexOf(hash) as the executor reports it
 	idxPan   map[int]bool
 	place    map[string]int // where Stop / cancellation fell (measured on the trace)
+	entered  map[int]bool   // callee entered at least once (under mu)
 }
 
 func (s *sched) stamp() int64 { return atomic.AddInt64(&s.seq, 1) }
@@ -145,6 +146,7 @@ func (s *sched) body(id int) bodyFn {
 		st := s.stamp()
 		s.mu.Lock()
 		s.evlog = append(s.evlog, obs{stamp: st, kind: oStart, c: id, lane: int64(lane)})
+		s.entered[id] = true
 		g := s.gates[id]
 		s.mu.Unlock()
 		s.poke()
@@ -183,7 +185,7 @@ func (s *sched) findEv(kind, c int) int {
 func newSched(p *plan) *sched {
 	s := &sched{p: p, results: map[int]*result{}, wake: make(chan struct{}, 1), gates: map[int]chan struct{}{}, gopen: map[int]bool{},
 		ctxs: map[int]*obsCtx{}, calls: map[int]*pcall{}, evUsed: map[int]bool{}, waiting: map[int]bool{}, gotSeen: map[int]bool{},
-		spawned: map[int]bool{}, idx: map[int]int{}, idxPan: map[int]bool{}, place: map[string]int{}}
+		spawned: map[int]bool{}, idx: map[int]int{}, idxPan: map[int]bool{}, place: map[string]int{}, entered: map[int]bool{}}
 	s.m = newModel(p.X, p.Lanes, p.Q)
 	s.ex = newExecutor(p.X, p.Lanes, p.Q)
 	for i := range p.Calls {
